@@ -1666,3 +1666,400 @@ def trace_program(cfg=None):
         g = GT(draw, cfg)
         return g.scenario()
     return strat()
+
+
+# ======================================================================================
+# collections profile (C11): histories of operations on one receiver
+# ======================================================================================
+IDX = [0.0, 1.0, 2.0, 3.0, 4.0, 5.0, 6.0, -1.0, -2.0, -3.0, -5.0, -6.0, -7.0, 0.5, 100.0, -100.0]
+STR_SAMPLES = ["aBc", "héLLo", "λΛx", "a😀b", " pad ", "a,b,,c", "", "x", "αβγδ", "\tq\n"]
+
+
+def N_(x):
+    return ("num", float(x))
+
+
+def L_(name, params, body_expr):
+    return ("lambda", params, ("expr", body_expr))
+
+
+class GColl(G):
+    def __init__(self, draw, cfg=None):
+        G.__init__(self, draw, cfg or Cfg(max_depth=2, p_confuse=0))
+
+    def num(self):
+        return N_(self.i(0, 9)) if self.chance(80) else N_(self.pick([0.5, -1, 100, 2.25]))
+
+    def idx(self):
+        v = self.pick(IDX)
+        return ("un", "-", N_(-v)) if v < 0 else N_(v)
+
+    def elem(self):
+        c = self.i(0, 9)
+        if c < 6:
+            return self.num()
+        if c < 8:
+            return ("str", self.pick(["a", "b", "héλ", ""]))
+        if c < 9:
+            return ("nil",)
+        return ("true",)
+
+    def wrap(self, expr):
+        """try { print(expr); } catch e { print(class name); }"""
+        return ("try", [("print", expr)], [("e", None, [("print", ("call", ("prop", ("call", ("prop", ("var", "e"), "cls"), []), "name"), []))])])
+
+    def wrap_stmt(self, stmt):
+        return ("try", [stmt], [("e", None, [("print", ("call", ("prop", ("call", ("prop", ("var", "e"), "cls"), []), "name"), []))])])
+
+    def callback(self, kind):
+        """kind: map | pred | fold"""
+        c = self.i(0, 9)
+        if kind == "map":
+            if c < 5:
+                return L_("m", ["x"], ("bin", self.pick(["+", "*", "-"]), ("var", "x"), self.num()))
+            if c < 8:
+                return ("lambda", ["x"], ("block", [("print", ("interp", ["m ", ("var", "x")])), ("implicit", ("bin", "+", ("var", "x"), N_(1)))]))
+            return ("lambda", ["x"], ("block", [("if", ("bin", "==", ("var", "x"), N_(self.i(0, 3))), [("raise", ("call", ("var", "Error"), [("str", "cb")]))], None), ("implicit", ("var", "x"))]))
+        if kind == "pred":
+            if c < 6:
+                return L_("p", ["x"], ("bin", self.pick(["<", ">", "==", "!=", ">="]), ("var", "x"), self.num()))
+            if c < 8:
+                return ("lambda", ["x"], ("block", [("print", ("interp", ["p ", ("var", "x")])), ("implicit", ("bin", ">", ("var", "x"), N_(self.i(0, 3))))]))
+            return L_("p", ["x"], self.pick([("nil",), ("true",), ("var", "x")]))
+        return L_("f", ["a", "x"], ("bin", self.pick(["+", "*", "-"]), ("var", "a"), ("var", "x")))
+
+    def source(self):
+        c = self.i(0, 9)
+        if c < 4:
+            return ("call", ("prop", ("var", "l"), "iter"), [])
+        if c < 6:
+            return ("call", ("prop", N_(self.i(0, 5)), "times"), [])
+        if c < 8:
+            lo = self.i(0, 3)
+            args = [N_(lo + self.i(0, 5))]
+            if self.chance(50):
+                args.append(self.pick([N_(1), N_(2), N_(0.5), N_(3)]))
+            return ("call", ("prop", N_(lo), "until"), args)
+        return ("call", ("prop", ("list", [self.num() for _ in range(self.i(0, 4))]), "iter"), [])
+
+    def chain(self):
+        e = self.source()
+        for _ in range(self.i(1, 4)):
+            c = self.i(0, 9)
+            if c < 3:
+                e = ("call", ("prop", e, "map"), [self.callback("map")])
+            elif c < 5:
+                e = ("call", ("prop", e, "filter"), [self.callback("pred")])
+            elif c < 7:
+                e = ("call", ("prop", e, "take"), [N_(self.i(0, 4))])
+            elif c < 8:
+                e = ("call", ("prop", e, "skip"), [N_(self.i(0, 4))])
+            elif c < 9:
+                e = ("call", ("prop", e, "zip"), [self.source()])
+            else:
+                e = ("call", ("prop", e, "chain"), [self.source()])
+        t = self.i(0, 9)
+        if t < 4:
+            return ("call", ("prop", e, "list"), [])
+        if t == 4:
+            return ("call", ("prop", e, "len"), [])
+        if t == 5:
+            return ("call", ("prop", e, "first"), [])
+        if t == 6:
+            return ("call", ("prop", e, "last"), [])
+        if t == 7:
+            return ("call", ("prop", e, "reduce"), [N_(0), self.callback("fold")])
+        if t == 8:
+            return ("call", ("prop", e, self.pick(["all", "any"])), [self.callback("pred")])
+        return ("call", ("prop", e, "each"), [("lambda", ["x"], ("block", [("print", ("interp", ["e ", ("var", "x")]))]))])
+
+    def list_op(self):
+        l = ("var", "l")
+        c = self.i(0, 99)
+        if c < 12:
+            return [self.wrap(("call", ("prop", l, "push"), [self.elem() for _ in range(self.i(0, 3))]))]
+        if c < 18:
+            return [self.wrap(("call", ("prop", l, "pop"), []))]
+        if c < 28:
+            return [self.wrap(("call", ("prop", l, "insert"), [self.idx_int(), self.elem()]))]
+        if c < 38:
+            return [self.wrap(("call", ("prop", l, "remove"), [self.idx_int()]))]
+        if c < 48:
+            return [self.wrap(("index", l, self.idx()))]
+        if c < 56:
+            return [self.wrap(("assign", ("index", l, self.idx()), self.elem()))]
+        if c < 59:
+            return [self.wrap(("call", ("prop", l, "clear"), []))]
+        if c < 65:
+            return [self.wrap(("call", ("prop", l, self.pick(["has", "index"])), [self.elem()]))]
+        if c < 75:
+            args = [self.idx() for _ in range(self.i(0, 2))]
+            return [self.wrap(("call", ("prop", l, "slice"), args))]
+        if c < 79:
+            return [self.wrap(("call", ("prop", l, "rev"), []))]
+        if c < 82:
+            return [self.wrap(("call", ("prop", l, "len"), []))]
+        if c < 86:
+            cc = self.i(0, 9)
+            if cc < 6:
+                cmpf = L_("c", ["a", "b"], ("bin", "-", ("var", "a"), ("var", "b")))
+            elif cc < 8:
+                cmpf = L_("c", ["a", "b"], ("bin", "-", ("var", "b"), ("var", "a")))
+            else:
+                cmpf = ("lambda", ["a", "b"], ("block", [("if", ("bin", ">", ("var", "a"), N_(self.i(0, 5))), [("raise", ("call", ("var", "ValueError"), [("str", "cmp")]))], None), ("implicit", ("bin", "-", ("var", "a"), ("var", "b")))]))
+            return [self.wrap(("call", ("prop", ("list", [self.num() for _ in range(self.i(0, 5))]), "sort"), [cmpf]))]
+        if c < 90:
+            return [self.wrap(("call", ("prop", l, self.pick(["push", "insert", "remove", "slice"])), [self.pick([("str", "x"), ("nil",), ("list", [])])]))]
+        return [self.wrap(self.chain())]
+
+    def idx_int(self):
+        v = self.pick([i for i in IDX if i == int(i)])
+        return ("un", "-", N_(-v)) if v < 0 else N_(v)
+
+    def map_key(self):
+        return self.pick([N_(1), N_(2), N_(3), ("str", "a"), ("str", "b"), ("nil",), ("true",), ("false",), N_(0.5)])
+
+    def map_op(self):
+        m = ("var", "m")
+        c = self.i(0, 99)
+        if c < 20:
+            return [self.wrap(("assign", ("index", m, self.map_key()), self.elem()))]
+        if c < 35:
+            return [self.wrap(("index", m, self.map_key()))]
+        if c < 45:
+            return [self.wrap(("call", ("prop", m, "get"), [self.map_key()]))]
+        if c < 55:
+            return [self.wrap(("call", ("prop", m, "set"), [self.map_key(), self.elem()]))]
+        if c < 62:
+            return [self.wrap(("call", ("prop", m, "insert"), [self.map_key(), self.elem()]))]
+        if c < 72:
+            return [self.wrap(("call", ("prop", m, "has"), [self.map_key()]))]
+        if c < 84:
+            return [self.wrap(("call", ("prop", m, "remove"), [self.map_key()]))]
+        if c < 90:
+            return [self.wrap(("call", ("prop", m, "len"), []))]
+        # order insensitive fold over the entries
+        return [self.wrap(("call", ("prop", ("call", ("prop", ("call", ("prop", m, "iter"), []), "map"), [L_("k", ["kv"], ("index", ("var", "kv"), N_(1)))]), "len"), []))]
+
+    def map_probe(self):
+        out = [("print", ("call", ("prop", ("var", "m"), "len"), []))]
+        for k in [N_(1), N_(2), N_(3), ("str", "a"), ("str", "b"), ("nil",), ("true",), ("false",), N_(0.5)]:
+            out.append(("print", ("call", ("prop", ("var", "m"), "get"), [k])))
+        return out
+
+    def str_op(self):
+        s = ("var", "s")
+        c = self.i(0, 99)
+        if c < 15:
+            return [self.wrap(("index", s, self.idx()))]
+        if c < 35:
+            return [self.wrap(("call", ("prop", s, "slice"), [self.idx() for _ in range(self.i(0, 2))]))]
+        if c < 42:
+            return [self.wrap(("call", ("prop", s, "len"), []))]
+        if c < 52:
+            return [self.wrap(("call", ("prop", s, "has"), [("str", self.pick(["a", "é", "λ", "", "😀", "zz", ","]))]))]
+        if c < 60:
+            return [self.wrap(("call", ("prop", s, self.pick(["upCase", "downCase", "trim", "trimStart", "trimEnd"])), []))]
+        if c < 72:
+            return [self.wrap(("call", ("prop", ("call", ("prop", s, "split"), [("str", self.pick([",", "a", "é", " ", "😀", "L"]))]), "list"), []))]
+        if c < 82:
+            return [self.wrap(("call", ("prop", ("call", ("prop", s, "iter"), []), "list"), []))]
+        if c < 88:
+            return [("expr", ("assign", s, ("bin", "+", s, ("str", self.pick(STR_SAMPLES))))), ("print", s)]
+        if c < 94:
+            return [self.wrap(("bin", self.pick(["<", "<=", ">", ">=", "=="]), s, ("str", self.pick(STR_SAMPLES))))]
+        return [self.wrap(("call", ("prop", s, self.pick(["slice", "has", "split"])), [self.pick([("nil",), N_(1), ("list", [])])]))]
+
+    def tuple_op(self):
+        t = ("var", "t")
+        c = self.i(0, 99)
+        if c < 30:
+            return [self.wrap(("index", t, self.idx()))]
+        if c < 55:
+            return [self.wrap(("call", ("prop", t, "slice"), [self.idx() for _ in range(self.i(0, 2))]))]
+        if c < 70:
+            return [self.wrap(("call", ("prop", t, self.pick(["has", "index"])), [self.elem()]))]
+        if c < 80:
+            return [self.wrap(("call", ("prop", t, "len"), []))]
+        if c < 90:
+            return [self.wrap(("call", ("prop", ("call", ("prop", t, "iter"), []), "list"), []))]
+        return [self.wrap(("call", ("prop", ("var", "Tuple"), "collect"), [self.source()]))]
+
+    def scenario(self):
+        kind = self.pick(["list", "list", "map", "str", "tuple", "chain"])
+        out = [("let", "l", ("list", [self.num() for _ in range(self.i(0, 5))]))]
+        if kind == "map":
+            out.append(("let", "m", ("map", [])))
+        elif kind == "str":
+            out.append(("let", "s", ("str", self.pick(STR_SAMPLES))))
+        elif kind == "tuple":
+            out.append(("let", "t", ("tuple", [self.elem() for _ in range(self.i(0, 5))])))
+        for _ in range(self.i(3, 12)):
+            if kind == "list":
+                out.extend(self.list_op())
+                out.append(("print", ("var", "l")))
+            elif kind == "map":
+                out.extend(self.map_op())
+                out.extend(self.map_probe())
+            elif kind == "str":
+                out.extend(self.str_op())
+                out.append(("print", ("var", "s")))
+            elif kind == "tuple":
+                out.extend(self.tuple_op())
+                out.append(("print", ("var", "t")))
+            else:
+                out.append(self.wrap(self.chain()))
+                out.append(("print", ("var", "l")))
+        return [("kind", kind)] + out
+
+
+def coll_program(cfg=None):
+    @st.composite
+    def strat(draw):
+        g = GColl(draw, cfg)
+        return g.scenario()[1:]
+    return strat()
+
+
+def coll_scenario(cfg=None):
+    @st.composite
+    def strat(draw):
+        g = GColl(draw, cfg)
+        return g.scenario()
+    return strat()
+
+
+# ======================================================================================
+# alias profile (C10): identity of mutable objects under mutation
+# ======================================================================================
+ALIAS_KINDS = ["local", "module", "field", "elem", "elem2", "mapval", "capture", "tuple"]
+
+
+class GA(G):
+    """One or two objects (list / map / instance), several aliases of each in different storage kinds, a
+    history of mutations through drawn aliases sized to cross list capacities 4 -> 8 -> 16, and identity
+    observations after every step. Everything happens inside one function (so that locals are stack slots)
+    or at module level (drawn)."""
+
+    def __init__(self, draw, cfg=None):
+        G.__init__(self, draw, cfg or Cfg(max_depth=2, p_confuse=0))
+
+    def scenario(self):
+        hazard_growth = "list-growth-with-mixed-alias-storage" in self.cfg.hazards
+        in_fn = self.chance(70)
+        body = []
+        pre = [("class", "Box", None, ("init", ["v"], [("expr", ("assign", ("prop", ("self",), "v"), ("var", "v")))]), [], []),
+               ("let", "modA", ("nil",)), ("let", "modB", ("nil",))]
+        objs = []
+        nobj = self.i(1, 2)
+        for oi in range(nobj):
+            kind = self.pick(["list", "list", "list", "map", "inst"])
+            name = "o%d" % oi
+            if kind == "list":
+                init = ("list", [("num", float(k)) for k in range(self.i(0, 4))])
+            elif kind == "map":
+                init = ("map", [])
+            else:
+                init = ("call", ("var", "Box"), [("num", 0.0)])
+            body.append(("let", name, init))
+            aliases = [("local" if in_fn else "module", ("var", name))]
+            kinds = []
+            for _ in range(self.i(1, 5)):
+                k = self.pick(ALIAS_KINDS[1:])
+                if hazard_growth and kind == "list":
+                    # known finding: only keep aliases in the same storage class as the original variable
+                    k = self.pick(["elem", "tuple", "mapval", "field"]) if in_fn else "module"
+                kinds.append(k)
+            for ai, k in enumerate(kinds):
+                an = "%s_%s%d" % (name, k, ai)
+                if k == "module":
+                    slot = "modA" if oi == 0 else "modB"
+                    body.append(("expr", ("assign", ("var", slot), ("var", name))))
+                    aliases.append((k, ("var", slot)))
+                elif k == "field":
+                    body.append(("let", an, ("call", ("var", "Box"), [("var", name)])))
+                    aliases.append((k, ("prop", ("var", an), "v")))
+                elif k == "elem":
+                    body.append(("let", an, ("list", [("num", 7.0), ("var", name)])))
+                    aliases.append((k, ("index", ("var", an), ("num", 1.0))))
+                elif k == "elem2":
+                    body.append(("let", an, ("list", [("list", [("var", name)])])))
+                    aliases.append((k, ("index", ("index", ("var", an), ("num", 0.0)), ("num", 0.0))))
+                elif k == "mapval":
+                    body.append(("let", an, ("map", [(("str", "k"), ("var", name))])))
+                    aliases.append((k, ("index", ("var", an), ("str", "k"))))
+                elif k == "tuple":
+                    body.append(("let", an, ("tuple", [("var", name), ("num", 1.0)])))
+                    aliases.append((k, ("index", ("var", an), ("num", 0.0))))
+                elif k == "capture":
+                    body.append(("let", an, ("lambda", [], ("expr", ("var", name)))))
+                    aliases.append((k, ("call", ("var", an), [])))
+            # a map keyed by the object and a list containing it, for identity based lookups
+            body.append(("let", name + "_keyed", ("map", [(("var", name), ("str", "found" + name))])))
+            body.append(("let", name + "_in", ("list", [("num", 1.0), ("var", name)])))
+            body.append(("let", name + "_tup", ("tuple", [("var", name)])))
+            objs.append((name, kind, aliases))
+        # history
+        for _ in range(self.i(3, 10)):
+            name, kind, aliases = self.pick(objs)
+            via = self.pick(aliases)[1]
+            c = self.i(0, 9)
+            if kind == "list":
+                if c < 5:
+                    body.append(("expr", ("call", ("prop", via, "push"), [("num", float(self.i(0, 9))) for _ in range(self.i(1, 4))])))
+                elif c < 6:
+                    body.append(("expr", ("call", ("prop", via, "insert"), [("num", 0.0), ("num", 5.0)])))
+                elif c < 7:
+                    body.append(("expr", ("call", ("prop", via, "pop"), [])))
+                elif c < 8:
+                    body.append(("try", [("expr", ("assign", ("index", via, ("num", 0.0)), ("num", 42.0)))], [("e", None, [])]))
+                elif c < 9:
+                    body.append(("try", [("expr", ("call", ("prop", via, "remove"), [("num", 0.0)]))], [("e", None, [])]))
+                else:
+                    body.append(("expr", ("call", ("prop", via, "clear"), [])))
+            elif kind == "map":
+                if c < 7:
+                    body.append(("expr", ("assign", ("index", via, ("num", float(self.i(0, 20)))), ("num", 1.0))))
+                else:
+                    body.append(("try", [("expr", ("call", ("prop", via, "remove"), [("num", float(self.i(0, 20)))]))], [("e", None, [])]))
+            else:
+                body.append(("expr", ("assign", ("prop", via, "v"), ("num", float(self.i(0, 99))))))
+            # observations
+            for _ in range(self.i(1, 3)):
+                name2, kind2, aliases2 = self.pick(objs)
+                a1 = self.pick(aliases2)[1]
+                a2 = self.pick(aliases2)[1]
+                oc = self.i(0, 9)
+                if hazard_growth and kind2 == "list" and 4 <= oc < 6:
+                    oc = 0  # map keys are not rewritten after a list moves (known finding)
+                if oc < 3:
+                    body.append(("print", ("bin", "==", a1, a2)))
+                elif oc < 4 and len(objs) > 1:
+                    other = objs[0] if objs[1][0] == name2 else objs[1]
+                    body.append(("print", ("bin", "==", a1, self.pick(other[2])[1])))
+                elif oc < 6:
+                    body.append(("try", [("print", ("index", ("var", name2 + "_keyed"), a1))],
+                                 [("e", None, [("print", ("call", ("prop", ("call", ("prop", ("var", "e"), "cls"), []), "name"), []))])]))
+                elif oc < 7:
+                    body.append(("print", ("call", ("prop", ("var", name2 + "_in"), self.pick(["has", "index"])), [a1])))
+                elif oc < 8:
+                    body.append(("print", ("call", ("prop", ("var", name2 + "_tup"), self.pick(["has", "index"])), [a1])))
+                else:
+                    if kind2 == "list":
+                        body.append(("print", ("call", ("prop", a1, "len"), [])))
+                        body.append(("print", a2))
+                    elif kind2 == "map":
+                        body.append(("print", ("call", ("prop", a1, "len"), [])))
+                    else:
+                        body.append(("print", ("prop", a1, "v")))
+        if in_fn:
+            return pre + [("fn", "main", [], body), ("expr", ("call", ("var", "main"), []))]
+        return pre + body
+
+
+def alias_program(cfg=None):
+    @st.composite
+    def strat(draw):
+        g = GA(draw, cfg)
+        return g.scenario()
+    return strat()
